@@ -3,6 +3,12 @@
 usage: seed_import.py <worktree root, e.g. /tmp/wt> """
 import json, os, re, shutil, sys
 root = sys.argv[1]
+offset = 0
+only = None
+if "--offset" in sys.argv:
+    offset = int(sys.argv[sys.argv.index("--offset") + 1])
+if "--only" in sys.argv:
+    only = sys.argv[sys.argv.index("--only") + 1].split(",")
 out = "/verif/seeded"
 for prop in sorted(os.listdir(root)):
     mdir = os.path.join(root, prop, "_mut")
@@ -12,7 +18,9 @@ for prop in sorted(os.listdir(root)):
         src = os.path.join(mdir, m)
         if not os.path.exists(os.path.join(src, "patch.diff")):
             continue
-        sid = f"{prop}-{m}"
+        if only and f"{prop}-{m}" not in only:
+            continue
+        sid = f"{prop}-m{int(m[1:]) + offset}" if offset else f"{prop}-{m}"
         dst = os.path.join(out, sid)
         os.makedirs(dst, exist_ok=True)
         for f in os.listdir(src):
@@ -48,6 +56,7 @@ for prop in sorted(os.listdir(root)):
             "demo": demo[0] if demo else None,
             "demo_dir": demo_dir,
             "needs_to_manifest": needs[:1200],
+            "round": 2 if offset else 1,
             "origin": "written by a fresh sub-agent that was given only the property text and a scratch worktree of the repository; nothing from /verif",
             "verified": {
                 "how": "selftest/seedtest.sh <dir> <property> verify on a scratch copy of /repo: (1) demo copied into demo_dir on the unchanged tree: go test -vet=off -count=1 ./<demo_dir>/ -run 'C[0-9]+|Demo|demo' ; (2) git apply patch.diff, go build ./..., go test -vet=off -count=1 ./... ; (3) demo again with the patch",
